@@ -137,6 +137,13 @@ def _violations(sb):
         ("queries-path-missing", "client", C(queries_path=sb.p("nope.graphql")), (EX.InvalidConfiguration,)),
         ("queries-path-absent", "client", C(queries_path=_DROP), (EX.MissingConfiguration, EX.InvalidConfiguration)),
         ("target-path-is-a-file", "client", C(target_package_path=sb.p("not_a_dir.txt")), (EX.InvalidConfiguration,)),
+        ("target-path-does-not-exist", "client", C(target_package_path=sb.p("no_such_dir")), (EX.InvalidConfiguration,)),
+        ("target-path-does-not-exist-nested-with-trailing-slash", "client", C(target_package_path=sb.p("no_such_dir") + "/deeper/"), (EX.InvalidConfiguration,)),
+        ("target-path-below-a-file", "client", C(target_package_path=sb.p("not_a_dir.txt") + "/sub"), (EX.InvalidConfiguration,)),
+        # a remote url that the http library cannot even parse is a bad url like any other: the introspection error, not an httpx one
+        ("remote-url-with-a-non-numeric-port", "client", C(schema_path=_DROP, remote_schema_url="http://localhost:80a0/graphql"), (EX.IntrospectionError, EX.InvalidConfiguration)),
+        ("remote-url-with-an-unbalanced-bracket", "schema", S(schema_path=_DROP, remote_schema_url="http://[::1/graphql"), (EX.IntrospectionError, EX.InvalidConfiguration)),
+        ("remote-url-with-a-control-character", "client", C(schema_path=_DROP, remote_schema_url="http://localhost:1/gra\x07phql"), (EX.IntrospectionError, EX.InvalidConfiguration)),
         ("unknown-comment-mode", "client", C(include_comments="loud"), (EX.InvalidConfiguration,)),
         ("unknown-comment-mode-capitalised", "client", C(include_comments="Stable"), (EX.InvalidConfiguration,)),
         ("scalar-without-type", "client", C(scalars={"DateTime": {"parse": "x.y"}}), (EX.MissingConfiguration,)),
@@ -284,6 +291,42 @@ def bounded_rejections(tier, seed):
                        "comment mode, scalar without type, header variable, base client, target file type), syntax errors (file, one file of a "
                        "directory, operations), 6 classes of invalid schema x 2 strategies, 9 classes of invalid operation; target tree "
                        "snapshot before/after; 6 valid configurations incl. unknown keys; configuration dict compared before/after",
+                cases=cases, failed=len(fails), failures=fails)
+
+
+def bounded_bad_remote_urls(tier, seed):
+    """C19: `introspection failures (bad URL, ...) surface as the introspection error` - through the whole command, for urls the
+    http library cannot parse, or has no transport for; nothing of the target is written"""
+    cases, fails = 0, []
+    sb = Sandbox()
+    try:
+        urls = {"non-numeric-port": "http://localhost:80a0/graphql", "unbalanced-bracket": "http://[::1/graphql", "control-character": "http://localhost:1/gra\x07phql",
+                "no-scheme": "localhost:1/graphql", "unsupported-scheme": "ftp://localhost/graphql", "empty-host": "http:///graphql"}
+        # (a well-formed url at which nothing listens is a transport failure - httpx.ConnectError escapes as it is; the statement lists
+        #  bad URL, non-2xx, non-JSON, errors and malformed data, so that case is not demanded here)
+        for name, url in urls.items():
+            for strategy, cfg in (("client", sb.client_cfg(schema_path=_DROP, remote_schema_url=url)), ("schema", sb.schema_cfg(schema_path=_DROP, remote_schema_url=url))):
+                cases += 1
+                before = _snapshot(sb.root)
+                exc, unmutated = _run(strategy, cfg)
+                after = _snapshot(sb.root)
+                bad = []
+                if exc is None:
+                    bad.append("bad-url-is-refused")
+                elif not isinstance(exc, (EX.IntrospectionError, EX.InvalidConfiguration)):
+                    bad.append("surfaces-as-the-introspection-error")
+                if after != before:
+                    bad.append("no-file-created-or-modified-before-the-failure")
+                if bad:
+                    fails.append(dict(inputs=dict(scenario=f"{name}:{strategy} -> {'+'.join(bad)}", url=url), failed=bad,
+                                      outcome=f"{type(exc).__module__}.{type(exc).__name__ if exc else 'accepted'}: {str(exc)[:160] if exc else ''}"))
+                    if after != before:
+                        sb.close()
+                        sb = Sandbox()
+    finally:
+        sb.close()
+    return dict(function="ariadne_codegen.schema:introspect_remote_schema", name="bounded.bad-remote-urls", kind="bounded stand-in (end-to-end, native)",
+                domain="6 classes of unusable remote_schema_url x 2 commands: the command fails with the introspection (or configuration) error, target tree unchanged",
                 cases=cases, failed=len(fails), failures=fails)
 
 
